@@ -100,6 +100,18 @@ def sweep(ctx, n):
                 s = 2.0**k if binary else 10.0**k
                 e = 2.0 ** rng.choice([-40, -20, 0, 0, 20, 40]) if binary else 10.0 ** rng.choice([-12, -6, 0, 0, 6, 12])
                 o = ctor(cls)(**scaled(cls, kw, s, e))
+                via = "plain"
+                if cls == "TriangularMesh":
+                    # the same body handed over through the other constructors (they rebuild vertices/faces from coordinates)
+                    via = rng.choice(["plain", "from_mesh", "from_triangles", "from_ConvexHull"])
+                    pol_s = np.asarray(kw["polarization"], float) * e
+                    if via == "from_mesh":
+                        o = magpy.magnet.TriangularMesh.from_mesh(mesh=np.asarray(base.mesh) * s, polarization=pol_s)
+                    elif via == "from_triangles":
+                        tris = [magpy.misc.Triangle(vertices=t * s, polarization=pol_s) for t in np.asarray(base.mesh)]
+                        o = magpy.magnet.TriangularMesh.from_triangles(triangles=tris, polarization=pol_s)
+                    elif via == "from_ConvexHull":
+                        o = magpy.magnet.TriangularMesh.from_ConvexHull(points=np.asarray(kw["vertices"], float) * s, polarization=pol_s)
                 B = o.getB(obs * s) * s**deg / e
                 H = o.getH(obs * s) * s**deg / e
                 J = magpy.getJ(o, obs * s)
@@ -112,11 +124,11 @@ def sweep(ctx, n):
                 status = True
                 if cls == "TriangularMesh":
                     status = (o.status_open, o.status_disconnected, o.status_reoriented) == (base.status_open, base.status_disconnected, base.status_reoriented) \
-                        and np.array_equal(o.faces, base.faces)
+                        and (via != "plain" or np.array_equal(o.faces, base.faces)) and len(o.faces) == len(base.faces)
                 if not (err < tol and jpat and status):
                     what = "field" if not err < tol else ("inside/outside" if not jpat else "mesh status/orientation")
                     sk = f"2^{k}" if binary else f"1e{k}"
-                    fails.append({"key": f"unit-scale:{cls}:{sk}", "desc": f"{what} changes with the length unit (scale {sk}, rel. err {err:.2g})",
+                    fails.append({"key": f"unit-scale:{cls}:{sk}", "desc": f"{what} changes with the length unit (scale {sk}, rel. err {err:.2g}" + (f", built with {via}" if via != "plain" else "") + ")",
                                   "replay": {"class": cls, "scale": s, "excitation_factor": e, "params_at_scale_1": {a: np.asarray(v).tolist() for a, v in kw.items()},
                                              "observers_at_scale_1": obs.tolist(), "rel_err": err, "J_pattern_equal": bool(jpat)}})
     return fails, {"c12_cases": done, "c12_worst_rel_err": {k: float(f"{v:.3g}") for k, v in worst.items()}}
